@@ -211,7 +211,7 @@ def h_symmetrize(env, n=3, spelling="num"):
     env.check("mean_of_n_rotated_copies", env.eq(at(out, p), tot / n))
 
 
-def h_place(env, angles=(90, 0, 0), tsize=4, two=False):
+def h_place(env, angles=(90, 0, 0), tsize=4, two=False, feature="object_id"):
     cm = env.module("cryomap")
     cmo = env.module("cryomotl")
     env.option("lazy", True)
@@ -219,8 +219,9 @@ def h_place(env, angles=(90, 0, 0), tsize=4, two=False):
     pos = [env.integer("pos%s" % a, -3, 30) for a in "xyz"]          # 1-based complete position (integer)
     q = [env.integer("q%s" % a, 0, 23) for a in "xyz"]
     env.assume(env.and_(*[env.lt(a, b) for a, b in zip(q, V)]))
-    col = env.real("colour", 1, 9)
-    rows = [{"x": pos[0], "y": pos[1], "z": pos[2], "phi": float(angles[0]), "theta": float(angles[1]), "psi": float(angles[2]), "object_id": col, "subtomo_id": 1.0, "tomo_id": 1.0}]
+    col = env.real("colour", 1, 9) if feature == "object_id" else env.real("colour", 0.05, 0.95)
+    rows = [{"x": pos[0], "y": pos[1], "z": pos[2], "phi": float(angles[0]), "theta": float(angles[1]), "psi": float(angles[2]), "object_id": 1.0, "subtomo_id": 1.0, "tomo_id": 1.0}]
+    rows[0][feature] = col
     m = mk_motl(env, cmo, rows)
     T = tsize
     if env.mode == "sym":
@@ -230,7 +231,7 @@ def h_place(env, angles=(90, 0, 0), tsize=4, two=False):
     else:
         tmpl = (np.random.default_rng(8).random((T, T, T)) > 0.5).astype(float)
         shape = tuple(int(v) for v in V)
-    out = cm.place_object(tmpl, m, volume_shape=shape)
+    out = cm.place_object(tmpl, m, volume_shape=shape) if feature == "object_id" else cm.place_object(tmpl, m, volume_shape=shape, feature_to_color=feature)
     # container voxel q (0-based) lies in the stamped box iff q = floor(pos-1 - T/2) + a for a window index a in [0,T)
     start = [pos[k] - 1 - (T + 1) // 2 for k in range(3)]           # floor(pos - 1 - T/2) for integer pos
     a_ = [q[k] - start[k] for k in range(3)]
@@ -262,5 +263,8 @@ def jobs(tier, seed):
           ("h_crop_pad", {"fn": "crop"}), ("h_crop_pad", {"fn": "pad"})]
     for n in ((2, 3, 4, 7) if tier == "quick" else range(2, 13)):
         j.append(("h_symmetrize", {"n": n, "spelling": "num" if n % 2 else "C"}))
-    j += [("h_place", {"angles": [90, 0, 0], "tsize": 4}), ("h_place", {"angles": [0, 90, 90], "tsize": 4}), ("h_place", {"angles": [180, 90, 270], "tsize": 5})]
+    j += [("h_place", {"angles": [90, 0, 0], "tsize": 4}), ("h_place", {"angles": [0, 90, 90], "tsize": 4}), ("h_place", {"angles": [180, 90, 270], "tsize": 5}),
+          ("h_place", {"angles": [90, 90, 0], "tsize": 4, "feature": "score"})]
+    if tier == "quick":
+        j.append(("h_symmetrize", {"n": 12, "spelling": "C"}))
     return j
